@@ -127,12 +127,11 @@ func collectConsts(f *ast.File, env constEnv) {
 
 func genConsts(r *Repo) (string, error) {
 	env := constEnv{}
-	for _, f := range []string{"fox.go", "tree.go", "path.go", "response_writer.go", "node.go", "context.go", "iter.go"} {
-		if r.Files[f] == nil {
-			return "", fmt.Errorf("missing file %s", f)
-		}
-		collectConsts(r.Files[f], env)
+	if r.File("fox.go") == nil {
+		return "", fmt.Errorf("root package not found")
 	}
+	collectConsts(r.File("fox.go"), env) // the whole root package
+
 	need := []string{"verb", "slashDelim", "dotDelim", "bracketDelim", "starDelim", "defaultModifiedCache", "stackBufSize", "notWritten",
 		"RouteHandler", "NoRouteHandler", "NoMethodHandler", "RedirectHandler", "OptionsHandler", "AllHandlers"}
 	var sb strings.Builder
